@@ -100,6 +100,7 @@ fn main() {
         "baseline" => {
             match args[2].as_str() {
                 "C01" => checks::c01::write_baseline(),
+                "C05" => checks::c05::write_baseline(),
                 _ => usage(),
             }
         }
